@@ -375,40 +375,87 @@ def rule_closing(ctx):
             why = f"{len(closing)} closing add(s) under `end == n`; every path with end == n passes one: {covered}"
         obs.append(Ob('CLOSING', f, closing[0] if closing else 0, 'keys greater than the last one are mapped to n: the point (succ(in(n-1)), n) is added whenever the chunk ends the data',
                       why, OK if ok else VIOLATED, arm='closing-point'))
-    for f in ctx.need('pgm::PGMIndex::build', ctx.units):
-        bl = [g_ for g_ in f.unit.fns('pgm::PGMIndex::build::(lambda)::operator()') if g_.d.get('parent_fn') == f.id and len(g_.params) == 4]
-        if not bl:
-            raise AnalysisBroken(f"{f.qname}: build_level lambda not found")
-        for l in bl:
-            g = graph(l)
-            pushes = [c for c in l.calls(pred=lambda nd: nd.get('cn') == 'emplace_back') if reachable(l, c)]
-            sent = [c for c in pushes if any(s[0] == 'static' and s[1].endswith('sentinel') for s in subterms(l.term(l.n(c)['args'][0], inline=True))) and len(l.n(c)['args']) == 3
-                    and strip_cast(l.term(l.n(c)['args'][0], inline=True))[0] == 'static']
+    import inline
+    import reach
+    for f0 in ctx.need('pgm::PGMIndex::build', ctx.units):
+        # the rule is a fact about build() as a whole (what is pushed between one segmentation and the next): decided on the
+        # flat view, in which build_level and any other local closure or new helper is inlined
+        l = inline.flat(f0)
+        g = graph(l)
+        segs = [c for c in l.calls(pred=lambda nd: nd.get('cn') == 'make_segmentation_par') if reachable(l, c)]
+        if not segs:
+            raise AnalysisBroken(f"{f0.qname}: no call of make_segmentation_par after inlining the local closures")
+        pushes = [c for c in l.calls(pred=lambda nd: nd.get('cn') == 'emplace_back') if reachable(l, c)]
+        is_sent = lambda c: len(l.n(c)['args']) == 3 and strip_cast(l.term(l.n(c)['args'][0], inline=True))[0] == 'static' and str(strip_cast(l.term(l.n(c)['args'][0], inline=True))[1]).endswith('sentinel')
+        sent_all = [c for c in pushes if is_sent(c)]
+        seg_blocks = {l.block_of(c)[0] for c in segs}
+        skip_true = set()
+        for b in g.reach:
+            c = g.cond(b)
+            if c:
+                t = nocast(strip_cast(l.term(c, inline=True)))
+                if t[0] == 'op' and t[1] in ('==', '!=') and any(s_[0] == 'static' and str(s_[1]).endswith('sentinel') for s_ in subterms(t)) and any(s_[0] == 'call' and str(s_[1]).endswith('::back') for s_ in subterms(t)):
+                    e = g.succ[b][0 if t[1] == '==' else 1]
+                    if e is not None:
+                        skip_true.add(e)
+        for S in segs:
+            sb, sk = l.block_of(S)
+            nk = l.n(S)['args'][0]
+            nk_t = nocast(l.term(nk, inline=False))
+            # sentinel pushes of this level: reachable from S without crossing another segmentation
+            others = seg_blocks - {sb}
+            region = set()
+            for s_ in g.succ[sb]:
+                if s_ is not None:
+                    region |= g.reachable_from(s_, blocked=seg_blocks)
+            mine = [c for c in sent_all if (l.block_of(c)[0] == sb and l.block_of(c)[1] > sk) or (l.block_of(c)[0] in region and l.block_of(c)[0] not in seg_blocks)]
             ok = False
-            why = 'no segments.emplace_back(sentinel, 0, last_n)'
-            if sent:
-                sb = {l.block_of(c)[0] for c in sent}
-                # the only way around it: segments.back() == sentinel already
-                skip_blocks = []
-                for b in g.reach:
-                    c = g.cond(b)
-                    if c:
-                        t = nocast(strip_cast(l.term(c, inline=True)))
-                        if t[0] == 'op' and t[1] == '==' and any(s[0] == 'static' and s[1].endswith('sentinel') for s in subterms(t)) and any(s[0] == 'call' and s[1].endswith('::back') for s in subterms(t)):
-                            skip_blocks.append(b)
-                allowed = True
-                if skip_blocks:
-                    fb = g.succ[skip_blocks[0]][1]
-                    allowed = fb is not None and (fb in sb or g.exit not in g.reachable_from(fb, blocked=sb))
+            why = 'no segments.emplace_back(sentinel, 0, last_n) between this segmentation and the next'
+            node = S
+            if mine:
+                node = mine[0]
+                pb = {l.block_of(c)[0] for c in mine}
+                if sb in pb:
+                    allowed = True
                 else:
-                    allowed = g.must_pass(g.entry, g.exit, sb)
-                last = all(not any(l.block_of(p) and l.block_of(p)[0] in g.reachable_from(s_) for s_ in g.succ[l.block_of(c)[0]] if s_ is not None) for c in sent for p in pushes if p != c)
-                a = l.n(sent[0])['args']
-                shape = strip_cast(l.term(a[1], inline=True)) == ('lit', 0) and nocast(l.term(a[2], inline=False)) == ('param', l.params[3]['name'])
+                    bad_targets = {g.exit} | seg_blocks
+                    seen = set()
+                    for s_ in g.succ[sb]:
+                        if s_ is not None and s_ not in pb and s_ not in skip_true:
+                            seen |= g.reachable_from(s_, blocked=pb | skip_true)
+                            seen.add(s_)
+                    allowed = not (seen & bad_targets)
+                last = True
+                for c in mine:
+                    cb, ck = l.block_of(c)
+                    after = set()
+                    for s_ in g.succ[cb]:
+                        if s_ is not None:
+                            after |= g.reachable_from(s_, blocked=seg_blocks) | {s_}
+                    after -= seg_blocks
+                    for p_ in pushes:
+                        if p_ in mine:
+                            continue
+                        pp = l.block_of(p_)
+                        if pp and ((pp[0] == cb and pp[1] > ck) or (pp[0] in after and pp[0] != cb)):
+                            last = False
+                shapes = []
+                for c in mine:
+                    a = l.n(c)['args']
+                    xt = nocast(l.term(a[2], inline=False))
+                    same = xt == nk_t and reach.same_value(l, xt, nk, a[2])
+                    shapes.append(strip_cast(l.term(a[1], inline=True)) == ('lit', 0) and bool(same))
+                    if not shapes[-1]:
+                        node = c
+                        stale = xt == nk_t and not same
+                        whyx = (f"intercept `{fmt_term(xt)}` is the same variable as the size passed to the segmentation but it is assigned in between (a stale or already updated value)"
+                                if stale else f"intercept `{fmt_term(xt)}`, size passed to the segmentation `{fmt_term(nk_t)}`")
+                shape = all(shapes)
                 ok = allowed and last and shape
-                why = f"emplace_back(sentinel, 0, last_n) on every path that does not already end in a sentinel: {allowed}; it is the last push: {last}; slope 0 / intercept last_n: {shape}"
-            obs.append(Ob('SENTINEL', l, sent[0] if sent else 0, 'every level of the segment array is terminated by a sentinel segment (the unbounded forward scans stop only because of it)',
-                          why, OK if ok else VIOLATED, arm='build-level'))
+                why = (f"emplace_back(sentinel, 0, last_n) on every path that does not already end in a sentinel: {allowed}; it is the last push of the level: {last}; "
+                       f"slope 0 and intercept = the number of keys just segmented: {shape}" + ('' if shape else ' (' + whyx + ')'))
+            obs.append(Ob('SENTINEL', l, node, 'every level of the segment array is terminated by a sentinel segment whose intercept is the size of the level below (the unbounded forward scans stop only because of it, and the cap of the last segment is its intercept)',
+                          why, OK if ok else VIOLATED, arm=f"build-level:{'first' if nk_t[0] == 'param' else 'upper'}"))
     return obs
 
 
